@@ -321,8 +321,8 @@ impl<F: Fl> DWorld<F> {
                 };
                 let a = self.node(u);
                 let cfg = match t {
-                    Some(t) => Cfg { kind: Kind::Bfs, transpose: false, target: Some(t), meth: Meth::None, res: ResK::Path },
-                    None => Cfg { kind: Kind::Dfs, transpose: false, target: None, meth: Meth::None, res: ResK::Cycle },
+                    Some(t) => Cfg { kind: Kind::Bfs, transpose: false, target: Some(t), meth: Meth::None, res: ResK::Path, alt: false },
+                    None => Cfg { kind: Kind::Dfs, transpose: false, target: None, meth: Meth::None, res: ResK::Cycle, alt: false },
                 };
                 match F::search_path_obj(&a, &cfg, &mut |_| true) {
                     Some(p) => {
@@ -337,7 +337,7 @@ impl<F: Fl> DWorld<F> {
             }
             DOp::TakeFound(u, t) => {
                 let a = self.node(u);
-                let cfg = Cfg { kind: Kind::Dfs, transpose: false, target: Some(t), meth: Meth::None, res: ResK::Search };
+                let cfg = Cfg { kind: Kind::Dfs, transpose: false, target: Some(t), meth: Meth::None, res: ResK::Search, alt: false };
                 let (_, mut nodes) = F::search(&a, &cfg, &mut |_| true);
                 match nodes.pop() {
                     Some(n) if F::key(&n) == t => {
@@ -365,7 +365,7 @@ impl<F: Fl> DWorld<F> {
             DOp::PfsTraverse(u) => {
                 let a = self.node(u);
                 for kind in [Kind::PfsMin, Kind::PfsMax] {
-                    let cfg = Cfg { kind, transpose: false, target: None, meth: Meth::ForEach, res: ResK::Search };
+                    let cfg = Cfg { kind, transpose: false, target: None, meth: Meth::ForEach, res: ResK::Search, alt: false };
                     let _ = F::search(&a, &cfg, &mut |_| true);
                 }
             }
